@@ -353,8 +353,11 @@ def solve (L : NLits α) (S : Setup α) (ode jac : Nat → α → Array α → A
             hhfac := L.p8 * Num.pow qnewt exponent
             h := h * hhfac
             cnt := { cnt with rejected := cnt.rejected + 1 }
+            -- the step is repeated with the reduced size (`continue 'main`)
+            reject := true
             last := false
-            exitKind := 0; break
+            callDecomp := true
+            exitKind := 1; break
         else
           singular := singular + 1
           if singular > 5 then
